@@ -225,6 +225,14 @@ def _failure(d, u):
             label = l.origin[4]
             props = l.origin[5]
             if label is None:
+                # a clause spanning several lines carries its label on one of them
+                for k2 in range(s['line_start'], min(s.get('line_end', s['line_start']), len(u.lines)) + 1):
+                    lo2 = u.lines[k2 - 1]
+                    if lo2.origin[0] == 'spec' and lo2.origin[4]:
+                        label = lo2.origin[4]
+                        props = lo2.origin[5]
+                        break
+            if label is None:
                 # nearest labelled clause above within the same spec block
                 k = s['line_start'] - 1
                 while k >= 1:
